@@ -26,29 +26,124 @@ fn border_keys() -> Vec<u32> {
 
 type V = Option<(String, String, String)>;
 
-/// hpo(id) for the given keys: Some exactly for added ids, with the right id and name
-fn check_keys<I: Iterator<Item = u32>>(ont: &Ontology, added: &BTreeMap<u32, String>, keys: I) -> V {
+/// the data a term was added with
+#[derive(Clone, Debug, Default, PartialEq)]
+struct Want {
+    name: String,
+    obsolete: bool,
+    replacement: Option<u32>,
+    /// direct parents, ascending
+    parents: Vec<u32>,
+}
+
+type Added = BTreeMap<u32, Want>;
+
+fn added_from_facts(f: &Facts) -> Added {
+    let mut m: Added = BTreeMap::new();
+    for t in &f.terms {
+        m.entry(t.id).or_insert_with(|| Want { name: t.name.clone(), obsolete: t.obsolete, replacement: t.replacement, parents: vec![] });
+    }
+    for &(c, p) in &f.edges {
+        if m.contains_key(&p) {
+            if let Some(w) = m.get_mut(&c) {
+                if !w.parents.contains(&p) {
+                    w.parents.push(p);
+                }
+            }
+        }
+    }
+    for w in m.values_mut() {
+        w.parents.sort_unstable();
+    }
+    m
+}
+
+/// id, name, flags, replacement and direct parents of a looked-up term against what it was added with
+fn same_data(t: &HpoTerm, id: u32, w: &Want, added: &Added) -> Option<String> {
+    if t.id().as_u32() != id || t.name() != w.name {
+        return Some(format!("id {} name {:?}, added with name {:?}", t.id().as_u32(), t.name(), w.name));
+    }
+    if t.is_obsolete() != w.obsolete {
+        return Some(format!("is_obsolete() = {}, added with {}", t.is_obsolete(), w.obsolete));
+    }
+    let rep = t.replacement_id().map(|r| r.as_u32());
+    if rep != w.replacement {
+        return Some(format!("replacement_id() = {rep:?}, added with {:?}", w.replacement));
+    }
+    let rb = t.replaced_by().map(|r| r.id().as_u32());
+    if rb != w.replacement.filter(|r| added.contains_key(r)) {
+        return Some(format!("replaced_by() = {rb:?}, added with replacement {:?}", w.replacement));
+    }
+    let mut parents: Vec<u32> = t.parent_ids().iter().map(|p| p.as_u32()).collect();
+    parents.sort_unstable();
+    if parents != w.parents {
+        return Some(format!("parent_ids() = {parents:?}, added with parents {:?}", w.parents));
+    }
+    None
+}
+
+/// hpo(id) for the given keys: Some exactly for added ids, with the id and the data the term was added with
+fn check_keys<I: Iterator<Item = u32>>(ont: &Ontology, added: &Added, keys: I) -> V {
     for id in keys {
         let got = ont.hpo(id);
         match (got, added.get(&id)) {
             (None, None) => {}
-            (Some(t), Some(name)) => {
-                if t.id().as_u32() != id || t.name() != name {
-                    return Some(("Ontology::hpo".into(), "returns a term with another id or other data than it was added with".into(), format!("hpo({id}) -> id {} name {:?}, added with name {:?}", t.id().as_u32(), t.name(), name)));
+            (Some(t), Some(w)) => {
+                if let Some(d) = same_data(&t, id, w, added) {
+                    return Some(("Ontology::hpo".into(), "returns a term with another id or other data than it was added with".into(), format!("hpo({id}) -> {d}")));
                 }
             }
             (Some(t), None) => return Some(("Ontology::hpo".into(), "returns a term for an id that was never added".into(), format!("hpo({id}) -> {}", t.id().as_u32()))),
             (None, Some(_)) => return Some(("Ontology::hpo".into(), "returns nothing for an id that was added".into(), format!("hpo({id})"))),
         }
-        let tn = HpoTerm::try_new(ont, id).is_ok();
-        if tn != added.contains_key(&id) {
-            return Some(("HpoTerm::try_new".into(), "disagrees with the set of added ids".into(), format!("try_new({id}).is_ok() = {tn}")));
+        match (HpoTerm::try_new(ont, id), added.get(&id)) {
+            (Ok(t), Some(w)) => {
+                if let Some(d) = same_data(&t, id, w, added) {
+                    return Some(("HpoTerm::try_new".into(), "returns a term with another id or other data than it was added with".into(), format!("try_new({id}) -> {d}")));
+                }
+            }
+            (Err(_), None) => {}
+            (r, _) => return Some(("HpoTerm::try_new".into(), "disagrees with the set of added ids".into(), format!("try_new({id}).is_ok() = {}", r.is_ok()))),
         }
     }
     None
 }
 
-fn check_iteration(ont: &Ontology, added: &BTreeMap<u32, String>) -> V {
+/// The same lookups on a clone, and on a clone of the clone after the ontologies it was made from are gone.
+fn check_clones<'a>(ont: Ontology, added: &Added, keys: &[u32]) -> V {
+    let tag = |v: V, what: &str| v.map(|(site, sig, det)| (site, format!("[{what}] {sig}"), det));
+    let b = ont.clone();
+    if let Some(v) = tag(check_keys(&b, added, keys.iter().copied()).or_else(|| check_iteration(&b, added)), "clone of the ontology") {
+        return Some(v);
+    }
+    // the original is still the same
+    if let Some(v) = tag(check_keys(&ont, added, keys.iter().copied()), "ontology after it was cloned") {
+        return Some(v);
+    }
+    let c = b.clone();
+    drop(ont);
+    drop(b);
+    tag(check_keys(&c, added, keys.iter().copied()).or_else(|| check_iteration(&c, added)), "clone of a clone, originals dropped")
+}
+
+/// Lookups alternating between two live ontologies: a.hpo(k), b.hpo(k), a.hpo(k) for every key
+fn check_interleaved(a: &Ontology, a_added: &Added, b: &Ontology, b_added: &Added, keys: &[u32]) -> V {
+    let tag = |v: V, what: &str| v.map(|(site, sig, det)| (site, format!("[lookups alternating between two ontologies] {sig}"), format!("{what}: {det}")));
+    for &k in keys {
+        if let Some(v) = tag(check_keys(a, a_added, std::iter::once(k)), "previous ontology") {
+            return Some(v);
+        }
+        if let Some(v) = tag(check_keys(b, b_added, std::iter::once(k)), "current ontology, right after the same key on the previous one") {
+            return Some(v);
+        }
+        if let Some(v) = tag(check_keys(a, a_added, std::iter::once(k)), "previous ontology, right after the same key on the current one") {
+            return Some(v);
+        }
+    }
+    None
+}
+
+fn check_iteration(ont: &Ontology, added: &Added) -> V {
     let mut seen: BTreeSet<u32> = BTreeSet::new();
     let mut n = 0;
     for t in ont.iter() {
@@ -67,7 +162,13 @@ fn check_iteration(ont: &Ontology, added: &BTreeMap<u32, String>) -> V {
     let a: Vec<u32> = ont.hpos().map(|t| t.id().as_u32()).collect();
     let b: Vec<u32> = (&ont).into_iter().map(|t| t.id().as_u32()).collect();
     let c: Vec<u32> = ont.iter().map(|t| t.id().as_u32()).collect();
-    if a != c || b != c {
+    // the three ways to iterate yield the same terms (their relative order is not part of the property)
+    let sorted = |v: &Vec<u32>| {
+        let mut x = v.clone();
+        x.sort_unstable();
+        x
+    };
+    if sorted(&a) != sorted(&c) || sorted(&b) != sorted(&c) {
         return Some(("Ontology::hpos".into(), "hpos() / &ontology / iter() disagree".into(), String::new()));
     }
     // a partly consumed iterator: what is left agrees with len() as well (count, size_hint, last, nth)
@@ -105,13 +206,12 @@ fn check_iteration(ont: &Ontology, added: &BTreeMap<u32, String>) -> V {
     None
 }
 
-fn term_facts(seq: &[(u32, String)]) -> (Facts, BTreeMap<u32, String>) {
+fn term_facts(seq: &[(u32, String)]) -> (Facts, Added) {
     let mut f = Facts::default();
-    let mut added = BTreeMap::new();
     for (id, name) in seq {
         f.terms.push(Facts::term(*id, name));
-        added.entry(*id).or_insert_with(|| name.clone());
     }
+    let added = added_from_facts(&f);
     (f, added)
 }
 
@@ -131,9 +231,63 @@ fn all_strings(alphabet: &[&str], max_len: usize) -> Vec<String> {
     out
 }
 
+/// Every record lookup of one ontology: gene / omim_disease / orpha_disease for every id key, gene_by_name for
+/// every symbol key, omim_diseases_by_name / omim_disease_by_name for every query.
+#[allow(clippy::too_many_arguments)]
+fn check_records(ont: &Ontology, genes: &BTreeMap<u32, String>, omim: &BTreeMap<u32, String>, orpha: &BTreeMap<u32, String>, key_ids: &[u32], symbol_keys: &[String], queries: &[String], strict_subset: &mut bool) -> V {
+        for k in key_ids {
+            let g = ont.gene(&(*k).into()).map(|g| (g.id().as_u32(), g.name().to_string()));
+            if g != genes.get(k).map(|n| (*k, n.clone())) {
+                return Some(("Ontology::gene".into(), "does not return the record with that id or nothing".into(), format!("gene({k}) = {g:?}")));
+            }
+            let o = ont.omim_disease(&(*k).into()).map(|d| (d.id().as_u32(), d.name().to_string()));
+            if o != omim.get(k).map(|n| (*k, n.clone())) {
+                return Some(("Ontology::omim_disease".into(), "does not return the record with that id or nothing".into(), format!("omim_disease({k}) = {o:?}")));
+            }
+            let r = ont.orpha_disease(&(*k).into()).map(|d| (d.id().as_u32(), d.name().to_string()));
+            if r != orpha.get(k).map(|n| (*k, n.clone())) {
+                return Some(("Ontology::orpha_disease".into(), "does not return the record with that id or nothing".into(), format!("orpha_disease({k}) = {r:?}")));
+            }
+        }
+        for s in symbol_keys.iter().map(|s| s.as_str()) {
+            let got = ont.gene_by_name(s).map(|g| (g.id().as_u32(), g.name().to_string()));
+            let exists = genes.values().any(|n| n == s);
+            match got {
+                Some((id, name)) => {
+                    if name != s || genes.get(&id) != Some(&name) {
+                        return Some(("Ontology::gene_by_name".into(), "returns a gene whose symbol is not exactly the query".into(), format!("gene_by_name({s:?}) = ({id}, {name:?})")));
+                    }
+                }
+                None => {
+                    if exists {
+                        return Some(("Ontology::gene_by_name".into(), "returns nothing although a gene with exactly that symbol exists".into(), format!("gene_by_name({s:?})")));
+                    }
+                }
+            }
+        }
+        for q in queries {
+            let want: BTreeSet<u32> = omim.iter().filter(|(_, n)| n.contains(q.as_str())).map(|(i, _)| *i).collect();
+            let got_list: Vec<u32> = ont.omim_diseases_by_name(q).map(|d| d.id().as_u32()).collect();
+            let got: BTreeSet<u32> = got_list.iter().copied().collect();
+            if got != want || got_list.len() != want.len() {
+                return Some(("Ontology::omim_diseases_by_name".into(), "does not return exactly the diseases whose name contains the query".into(), format!("query {q:?}: observed {got_list:?} expected {want:?}")));
+            }
+            if !want.is_empty() && want.len() < omim.len() {
+                *strict_subset = true;
+            }
+            let one = ont.omim_disease_by_name(q).map(|d| d.id().as_u32());
+            match one {
+                Some(id) if want.contains(&id) => {}
+                None if want.is_empty() => {}
+                other => return Some(("Ontology::omim_disease_by_name".into(), "does not return a disease whose name contains the query (or None iff there is none)".into(), format!("query {q:?}: observed {other:?} expected one of {want:?}"))),
+            }
+        }
+        None
+}
+
 pub fn run(ctx: &mut Ctx) {
     let thorough = ctx.tier.thorough();
-    ctx.rule = "terms: case = one ontology (id set x insertion order, repeated ids included) with hpo(id)/try_new for every id of 0..10^7 (canonical order of each id set) or the border keys (other orders), plus iteration/len; records: case = one record set with every id key and every query string; distinct by construction; non-trivial = ontology with at least one id at a border of the id space or a repeated id, resp. a record set where some query matches a strict subset".into();
+    ctx.rule = "terms: case = one ontology (id set x insertion order, repeated ids included) with hpo(id)/try_new for every id of 0..10^7 (canonical order of each id set) or the border keys (other orders, clones, two live ontologies alternating), comparing id, name, flags, replacement and direct parents, plus iteration/len; the same id sets through the binary decoder and the text loader; records: case = one record set (<= 4 genes / 13 diseases exhaustively, 31 ... 300 generated ones) with every id key and every query string; distinct by construction; non-trivial = ontology with at least one id at a border of the id space or a repeated id, resp. a record set where some query matches a strict subset".into();
     ctx.assumptions = vec![
         "term ids are < 10^7 (documented id range; new_term with a larger id panics and is outside the quantifier)".into(),
         "new_term with an id that was already added does nothing (documented): the first name wins".into(),
@@ -143,7 +297,7 @@ pub fn run(ctx: &mut Ctx) {
     let pool: [u32; 6] = [0, 1, 2, 118, 9_999_998, 9_999_999];
 
     // ---- all subsets of the border pool; full id sweep on the canonical order, border keys on all other orders
-    ctx.space("terms/border-pool-subsets", "all 64 subsets of {0,1,2,118,9999998,9999999}: full sweep hpo(id) for every id 0..10^7+10^4 on the ascending insertion order; every insertion order (<= 4 elements) or rotation/reverse (more) and every single repeated id checked on the border keys");
+    ctx.space("terms/border-pool-subsets", "all 64 subsets of {0,1,2,118,9999998,9999999}: full sweep hpo(id) for every id 0..10^7+10^4 on the ascending insertion order; every insertion order (<= 4 elements) or rotation/reverse (more) and every single repeated id checked on the border keys, each of these ontologies also alternating key by key with the previous one of the case (same ids, other slots), which is kept alive; border keys and iteration again on ont.clone() and on a clone of the clone after the originals are dropped (canonical order and the last repeated-id order of every subset)");
     for mask in 0u32..64 {
         let ids: Vec<u32> = crate::space::bits(mask, 6).iter().map(|i| pool[*i]).collect();
         // canonical: full sweep, one case per subset
@@ -161,6 +315,14 @@ pub fn run(ctx: &mut Ctx) {
                     let r = guard(|| check_keys(&ont, &added, 0..MAX_ID + 10_000).or_else(|| check_keys(&ont, &added, borders.iter().copied())).or_else(|| check_keys(&ont, &added, u32::MAX - 10_000..=u32::MAX)).or_else(|| check_iteration(&ont, &added)));
                     ctx.execs(MAX_ID as u64 + 20_000);
                     ctx.validateds(MAX_ID as u64 + 20_000);
+                    // ... and the border keys and the iteration on a clone, and on a clone of the clone once the
+                    // ontologies it was made from are dropped
+                    let r = match r {
+                        Ok(None) => guard(|| check_clones(ont, &added, &borders)),
+                        other => other,
+                    };
+                    ctx.execs(3 * borders.len() as u64);
+                    ctx.validateds(3 * borders.len() as u64);
                     match r {
                         Ok(None) => {}
                         Ok(Some((site, sig, det))) => ctx.violation(&site, &sig, json!({"term_ids_added": ids, "difference": det, "rust": f.to_rust(false)})),
@@ -186,18 +348,40 @@ pub fn run(ctx: &mut Ctx) {
                 s.insert(i + 1, (ids[i], "repeated".into()));
                 seqs.push(s);
             }
-            for seq in seqs {
+            // the previous ontology of the case stays alive: same ids in other slots (other insertion order)
+            let mut prev: Option<(Ontology, Added, Vec<(u32, String)>)> = None;
+            let n_seqs = seqs.len();
+            for (si, seq) in seqs.into_iter().enumerate() {
                 let (f, added) = term_facts(&seq);
-                ctx.transitions(f.n_steps() + borders.len() as u64);
+                ctx.transitions(f.n_steps() + 4 * borders.len() as u64);
                 ctx.exec();
                 ctx.validated();
                 match drive::build(&f, Mode::Minimal) {
                     Err(e) => ctx.violation("Builder::new_term", "construction fails", json!({"new_term calls": seq, "observed": e})),
-                    Ok(ont) => match guard(|| check_keys(&ont, &added, borders.iter().copied()).or_else(|| check_iteration(&ont, &added))) {
-                        Ok(None) => {}
-                        Ok(Some((site, sig, det))) => ctx.violation(&site, &sig, json!({"new_term calls": seq, "difference": det, "rust": f.to_rust(false)})),
-                        Err(p) => ctx.violation("Ontology::hpo", "panics", json!({"new_term calls": seq, "observed": p})),
-                    },
+                    Ok(ont) => {
+                        let r = guard(|| {
+                            check_keys(&ont, &added, borders.iter().copied()).or_else(|| check_iteration(&ont, &added)).or_else(|| match &prev {
+                                Some((pont, padded, _)) => check_interleaved(pont, padded, &ont, &added, &borders),
+                                None => None,
+                            })
+                        });
+                        match r {
+                            Ok(None) => {}
+                            Ok(Some((site, sig, det))) => ctx.violation(&site, &sig, json!({"new_term calls": seq, "difference": det, "rust": f.to_rust(false), "previous ontology of the case (still alive), new_term calls": prev.as_ref().map(|p| p.2.clone())})),
+                            Err(p) => ctx.violation("Ontology::hpo", "panics", json!({"new_term calls": seq, "observed": p})),
+                        }
+                        if si + 1 == n_seqs {
+                            // the last one (a repeated id right after the original) once more through clones
+                            prev = None;
+                            match guard(|| check_clones(ont, &added, &borders)) {
+                                Ok(None) => {}
+                                Ok(Some((site, sig, det))) => ctx.violation(&site, &sig, json!({"new_term calls": seq, "difference": det, "rust": f.to_rust(false)})),
+                                Err(p) => ctx.violation("Ontology::clone", "panics", json!({"new_term calls": seq, "observed": p})),
+                            }
+                        } else {
+                            prev = Some((ont, added, seq));
+                        }
+                    }
                 }
             }
             ctx.sample(|| json!({"term_ids": ids, "orders_and_repeats": true}));
@@ -267,7 +451,7 @@ pub fn run(ctx: &mut Ctx) {
     // ---- ontologies built by the binary decoder and the text loader (names incl. the empty one, every record order)
     {
         let family = crate::props::common::format_family(4, if thorough { 1 } else { 8 });
-        ctx.space("terms/decoded-ontologies", &format!("{} small fact sets (names \"\", x, é, a: b; flags; records) decoded from binary v1/v2/v3 in every term-record order and from hp.obo in every stanza order: hpo(id) for 0..1200, the border keys and every added id; iteration; len", family.len()));
+        ctx.space("terms/decoded-ontologies", &format!("{} small fact sets (names \"\", x, é, a: b; flags; records) decoded from binary v1/v2/v3 in every term-record order and from hp.obo in every stanza order: hpo(id) / try_new(id) for 0..1200, the border keys and every added id, comparing id, name, obsolete flag, replacement and direct parents with the facts; iteration; len", family.len()));
         for (f, what) in &family {
             if !ctx.take() {
                 continue;
@@ -276,11 +460,10 @@ pub fn run(ctx: &mut Ctx) {
             if f.terms.iter().any(|t| t.name.is_empty()) {
                 ctx.nontrivial();
             }
-            let added: BTreeMap<u32, String> = f.terms.iter().map(|t| (t.id, t.name.clone())).collect();
             let n = f.terms.len();
             let mut keys: Vec<u32> = (0..1200).collect();
             keys.extend(borders.iter().copied());
-            keys.extend(added.keys().copied());
+            keys.extend(f.terms.iter().map(|t| t.id));
             for p in permutations(n) {
                 let g = Facts { terms: crate::space::apply_perm(&f.terms, &p), ..f.clone() };
                 for version in [3u8, 2, 1] {
@@ -288,6 +471,8 @@ pub fn run(ctx: &mut Ctx) {
                         continue;
                     }
                     let pf = crate::encode::project(&g, version);
+                    // name, obsolete flag, replacement and direct parents as this format version carries them
+                    let added = added_from_facts(&pf);
                     let bytes = crate::encode::encode(&pf, &crate::encode::EncOpts::v(version));
                     ctx.transitions(pf.n_steps() + keys.len() as u64);
                     ctx.exec();
@@ -310,7 +495,7 @@ pub fn run(ctx: &mut Ctx) {
                             t.name = "n".into();
                         }
                     }
-                    let tadded: BTreeMap<u32, String> = tf.terms.iter().map(|t| (t.id, t.name.clone())).collect();
+                    let tadded = added_from_facts(&tf);
                     ctx.transitions(tf.n_steps() + keys.len() as u64);
                     ctx.exec();
                     ctx.validated();
@@ -336,25 +521,135 @@ pub fn run(ctx: &mut Ctx) {
         crate::jax::cleanup();
     }
 
+    // ---- the border pool through the decoders: ids 0, 2, 9 999 998, 9 999 999 as term record, parent, replacement
+    {
+        ctx.space("terms/decoded-border-ids", "all 64 subsets of {0,1,2,118,9999998,9999999} plus the two roots 1 and 118, linked as a chain in id order (the largest term also is_a HP:1; the largest term obsolete and replaced by the next smaller one; the next smaller one names the largest as replacement without being obsolete): decoded from binary v1, v2, v3 and loaded from hp.obo, each in ascending and descending record order: hpo(id) / try_new(id) with id, name, flags, replacement and direct parents for 0..300, every id +-2, the border keys; iteration; len; the v3 ontology also through clones");
+        for mask in 0u32..64 {
+            if !ctx.take() {
+                continue;
+            }
+            ctx.state();
+            let mut ids: Vec<u32> = crate::space::bits(mask, 6).iter().map(|i| pool[*i]).collect();
+            ids.extend([1, 118]);
+            ids.sort_unstable();
+            ids.dedup();
+            if ids.iter().any(|i| *i == 0 || *i >= 9_999_998) {
+                ctx.nontrivial();
+            }
+            let mut f = Facts::default();
+            f.version = (2024, 2, 29);
+            for id in &ids {
+                f.terms.push(Facts::term(*id, &format!("T{id}")));
+            }
+            // HP:1 is the top; HP:0 and the smallest other term hang below HP:1, every further term below the next smaller one
+            let mut below_one: Vec<u32> = ids.iter().copied().filter(|i| *i > 1).collect();
+            if ids.contains(&0) {
+                f.edges.push((0, 1));
+            }
+            let mut prev = 1u32;
+            for id in below_one.drain(..) {
+                f.edges.push((id, prev));
+                prev = id;
+            }
+            let largest = *ids.last().unwrap();
+            if !f.edges.contains(&(largest, 1)) {
+                f.edges.push((largest, 1));
+            }
+            if ids.len() >= 3 && largest > 118 {
+                let next = ids[ids.len() - 2];
+                let k = f.terms.len();
+                f.terms[k - 1].obsolete = true;
+                f.terms[k - 1].replacement = Some(next);
+                if next > 118 {
+                    f.terms[k - 2].replacement = Some(largest);
+                }
+            }
+            let mut keys: Vec<u32> = (0..300).collect();
+            for v in &ids {
+                for d in -2i64..=2 {
+                    let k = *v as i64 + d;
+                    if k >= 0 {
+                        keys.push(k as u32);
+                    }
+                }
+            }
+            keys.extend(borders.iter().copied());
+            for descending in [false, true] {
+                let mut g = f.clone();
+                if descending {
+                    g.terms.reverse();
+                    g.edges.reverse();
+                }
+                for version in [3u8, 2, 1] {
+                    let pf = crate::encode::project(&g, version);
+                    let added = added_from_facts(&pf);
+                    let bytes = crate::encode::encode(&pf, &crate::encode::EncOpts::v(version));
+                    ctx.transitions(pf.n_steps() + keys.len() as u64);
+                    ctx.execs(keys.len() as u64);
+                    ctx.validateds(keys.len() as u64);
+                    match drive::from_bytes(&bytes) {
+                        Ok(Ok(ont)) => {
+                            let r = guard(|| {
+                                let first = check_keys(&ont, &added, keys.iter().copied()).or_else(|| check_iteration(&ont, &added));
+                                if first.is_none() && version == 3 && !descending {
+                                    check_clones(ont, &added, &keys)
+                                } else {
+                                    first
+                                }
+                            });
+                            match r {
+                                Ok(None) => {}
+                                Ok(Some((site, sig, det))) => ctx.violation(&site, &format!("[decoded from binary v{version}] {sig}"), json!({"facts": pf.to_json(), "term_records": if descending { "descending ids" } else { "ascending ids" }, "difference": det})),
+                                Err(pn) => ctx.violation("Ontology::hpo", &format!("[decoded from binary v{version}] panics"), json!({"facts": pf.to_json(), "observed": pn})),
+                            }
+                        }
+                        other => ctx.violation("Ontology::from_bytes", "rejects a file laid out as documented", json!({"facts": pf.to_json(), "format_version": version, "observed": format!("{:?}", other.map(|r| r.map(|_| ())))})),
+                    }
+                }
+                let added = added_from_facts(&g);
+                ctx.transitions(g.n_steps() + keys.len() as u64);
+                ctx.execs(keys.len() as u64);
+                ctx.validateds(keys.len() as u64);
+                let mut jo = crate::jax::JaxOpts::default();
+                if mask % 2 == 1 {
+                    jo.distractors = vec![crate::jax::Distractor::ExtraTags];
+                }
+                match crate::jax::load(&crate::jax::render(&g, &jo), descending) {
+                    Ok(Ok(ont)) => match guard(|| check_keys(&ont, &added, keys.iter().copied()).or_else(|| check_iteration(&ont, &added))) {
+                        Ok(None) => {}
+                        Ok(Some((site, sig, det))) => ctx.violation(&site, &format!("[loaded from hp.obo] {sig}"), json!({"facts": g.to_json(), "stanzas": if descending { "descending ids" } else { "ascending ids" }, "difference": det})),
+                        Err(pn) => ctx.violation("Ontology::hpo", "[loaded from hp.obo] panics", json!({"facts": g.to_json(), "observed": pn})),
+                    },
+                    other => ctx.violation("Ontology::from_standard", "rejects valid JAX files", json!({"facts": g.to_json(), "observed": format!("{:?}", other.map(|r| r.map(|_| ())))})),
+                }
+            }
+            ctx.sample(|| json!({"term_ids": ids, "facts": f.to_json()}));
+        }
+        crate::jax::cleanup();
+    }
+
     // ---- records: lookups by id, symbol, name substring
     let rec_ids: [u32; 4] = [0, 1, 77, u32::MAX];
-    let symbols: [&str; 5] = ["", "A", "a", "AB", "\u{e9}"];
-    let dnames: [&str; 9] = ["", "A", "a", "AB", "BA", "A B", "\u{e9}", "a\u{e9}", "ABA"];
-    let queries = all_strings(&["A", "a", "B", "\u{e9}", " "], 3);
+    let symbols: [&str; 7] = ["", "A", "a", "AB", "\u{e9}", "A1", "A-B"];
+    let dnames: [&str; 13] = ["", "A", "a", "AB", "BA", "A B", "\u{e9}", "a\u{e9}", "ABA", "A,B", "A-B", "A1", "A, B"];
+    const NS: usize = 7;
+    const ND: usize = 13;
+    let queries = all_strings(&["A", "a", "B", "\u{e9}", " ", ",", "-", "1"], 3);
     let key_ids: Vec<u32> = vec![0, 1, 2, 76, 77, 78, 255, 256, 65_535, 65_536, u32::MAX - 1, u32::MAX];
-    ctx.space("records/ids-symbols-names", "gene sets: all 16 subsets of ids {0,1,77,u32::MAX} x 5 symbol rotations (duplicate symbols included); OMIM/ORPHA sets: all subsets of <= 3 of 9 names plus the full set, records with and without terms; per case two Builder-built ontologies with the same record ids but the next symbols / names, looked up in the order first, second, first, then the first one decoded from binary v3; every id key, every symbol, all 156 query strings over {A,a,B,é,space} up to length 3");
+    let symbol_keys: Vec<String> = symbols.iter().copied().chain(["B", "ab", "A ", " A", "AA", "a1", "A1 ", "A-b", "AB-", "A-", "1", "-"]).map(String::from).collect();
+    ctx.space("records/ids-symbols-names", "gene sets: all 16 subsets of ids {0,1,77,u32::MAX} x 7 symbol rotations (duplicate symbols included; symbols with digit and hyphen); OMIM/ORPHA sets: all subsets of <= 3 of 13 names (with comma, hyphen, digit, comma+blank) plus the full set, records with and without terms; per case two Builder-built ontologies with the same record ids but the next symbols / names, looked up in the order first, second, first, then the first one decoded from binary v3; every id key, every symbol, all 585 query strings over {A,a,B,é,space,comma,hyphen,1} up to length 3");
     // disease name subsets
     let mut name_sets: Vec<Vec<usize>> = vec![vec![]];
-    for a in 0..9 {
+    for a in 0..ND {
         name_sets.push(vec![a]);
-        for b in a + 1..9 {
+        for b in a + 1..ND {
             name_sets.push(vec![a, b]);
-            for c in b + 1..9 {
+            for c in b + 1..ND {
                 name_sets.push(vec![a, b, c]);
             }
         }
     }
-    name_sets.push((0..9).collect());
+    name_sets.push((0..ND).collect());
     for (si, ns) in name_sets.iter().enumerate() {
         if !ctx.take() {
             continue;
@@ -372,7 +667,7 @@ pub fn run(ctx: &mut Ctx) {
         }
         let mut variants: Vec<Variant> = vec![];
         for shift in 0..2usize {
-            let rot = (si + shift) % 5;
+            let rot = (si + shift) % NS;
             let mut f = Facts::default();
             f.terms = vec![Facts::term(1, "All"), Facts::term(118, "Phenotypic abnormality")];
             f.edges = vec![(118, 1)];
@@ -380,7 +675,7 @@ pub fn run(ctx: &mut Ctx) {
             for (i, gid) in rec_ids.iter().enumerate() {
                 if gmask >> i & 1 == 1 {
                     // symbols rotate; every third set gives two genes the same symbol
-                    let sym = if si % 3 == 0 && i >= 2 { symbols[rot] } else { symbols[(i + rot) % 5] };
+                    let sym = if si % 3 == 0 && i >= 2 { symbols[rot] } else { symbols[(i + rot) % NS] };
                     genes.insert(*gid, sym.to_string());
                     f.anns.push(Facts::ann(Kind::Gene, *gid, sym, if i % 2 == 0 { Some(118) } else { None }));
                 }
@@ -389,14 +684,14 @@ pub fn run(ctx: &mut Ctx) {
             let mut orpha: BTreeMap<u32, String> = BTreeMap::new();
             for (j, ni) in ns.iter().enumerate() {
                 let id = if j + 1 == ns.len() && ns.len() > 1 { u32::MAX } else { j as u32 * 77 };
-                omim.insert(id, dnames[(*ni + 2 * shift) % 9].to_string());
-                f.anns.push(Facts::ann(Kind::Omim, id, dnames[(*ni + 2 * shift) % 9], if (j + si) % 2 == 0 { Some(1) } else { None }));
-                orpha.insert(id, dnames[(*ni + 1 + 2 * shift) % 9].to_string());
-                f.anns.push(Facts::ann(Kind::Orpha, id, dnames[(*ni + 1 + 2 * shift) % 9], None));
+                omim.insert(id, dnames[(*ni + 2 * shift) % ND].to_string());
+                f.anns.push(Facts::ann(Kind::Omim, id, dnames[(*ni + 2 * shift) % ND], if (j + si) % 2 == 0 { Some(1) } else { None }));
+                orpha.insert(id, dnames[(*ni + 1 + 2 * shift) % ND].to_string());
+                f.anns.push(Facts::ann(Kind::Orpha, id, dnames[(*ni + 1 + 2 * shift) % ND], None));
             }
             variants.push(Variant { f, genes, omim, orpha });
         }
-        let per = (queries.len() * 2 + 3 * key_ids.len() + symbols.len()) as u64;
+        let per = (queries.len() * 2 + 3 * key_ids.len() + symbol_keys.len()) as u64;
         ctx.transitions(2 * variants[0].f.n_steps() + variants[1].f.n_steps() + 4 * per);
         ctx.execs(4 * per);
         ctx.validateds(4 * per);
@@ -422,56 +717,7 @@ pub fn run(ctx: &mut Ctx) {
         for (step, which) in [0usize, 1, 0, 2].into_iter().enumerate() {
             let vi = if which == 2 { 0 } else { which };
             let (ont, genes, omim, orpha) = (&onts[which], &variants[vi].genes, &variants[vi].omim, &variants[vi].orpha);
-            let res = guard(|| -> V {
-                for k in &key_ids {
-                    let g = ont.gene(&(*k).into()).map(|g| (g.id().as_u32(), g.name().to_string()));
-                    if g != genes.get(k).map(|n| (*k, n.clone())) {
-                        return Some(("Ontology::gene".into(), "does not return the record with that id or nothing".into(), format!("gene({k}) = {g:?}")));
-                    }
-                    let o = ont.omim_disease(&(*k).into()).map(|d| (d.id().as_u32(), d.name().to_string()));
-                    if o != omim.get(k).map(|n| (*k, n.clone())) {
-                        return Some(("Ontology::omim_disease".into(), "does not return the record with that id or nothing".into(), format!("omim_disease({k}) = {o:?}")));
-                    }
-                    let r = ont.orpha_disease(&(*k).into()).map(|d| (d.id().as_u32(), d.name().to_string()));
-                    if r != orpha.get(k).map(|n| (*k, n.clone())) {
-                        return Some(("Ontology::orpha_disease".into(), "does not return the record with that id or nothing".into(), format!("orpha_disease({k}) = {r:?}")));
-                    }
-                }
-                for s in symbols.iter().copied().chain(["B", "ab", "A ", " A", "AA"]) {
-                    let got = ont.gene_by_name(s).map(|g| (g.id().as_u32(), g.name().to_string()));
-                    let exists = genes.values().any(|n| n == s);
-                    match got {
-                        Some((id, name)) => {
-                            if name != s || genes.get(&id) != Some(&name) {
-                                return Some(("Ontology::gene_by_name".into(), "returns a gene whose symbol is not exactly the query".into(), format!("gene_by_name({s:?}) = ({id}, {name:?})")));
-                            }
-                        }
-                        None => {
-                            if exists {
-                                return Some(("Ontology::gene_by_name".into(), "returns nothing although a gene with exactly that symbol exists".into(), format!("gene_by_name({s:?})")));
-                            }
-                        }
-                    }
-                }
-                for q in &queries {
-                    let want: BTreeSet<u32> = omim.iter().filter(|(_, n)| n.contains(q.as_str())).map(|(i, _)| *i).collect();
-                    let got_list: Vec<u32> = ont.omim_diseases_by_name(q).map(|d| d.id().as_u32()).collect();
-                    let got: BTreeSet<u32> = got_list.iter().copied().collect();
-                    if got != want || got_list.len() != want.len() {
-                        return Some(("Ontology::omim_diseases_by_name".into(), "does not return exactly the diseases whose name contains the query".into(), format!("query {q:?}: observed {got_list:?} expected {want:?}")));
-                    }
-                    if !want.is_empty() && want.len() < omim.len() {
-                        strict_subset = true;
-                    }
-                    let one = ont.omim_disease_by_name(q).map(|d| d.id().as_u32());
-                    match one {
-                        Some(id) if want.contains(&id) => {}
-                        None if want.is_empty() => {}
-                        other => return Some(("Ontology::omim_disease_by_name".into(), "does not return a disease whose name contains the query (or None iff there is none)".into(), format!("query {q:?}: observed {other:?} expected one of {want:?}"))),
-                    }
-                }
-                None
-            });
+            let res = guard(|| check_records(ont, genes, omim, orpha, &key_ids, &symbol_keys, &queries, &mut strict_subset));
             let order = ["first ontology", "second ontology (same record ids, next symbols / names) after the first", "first ontology again after the second", "first ontology decoded from binary v3"][step];
             match res {
                 Ok(None) => {}
@@ -490,6 +736,161 @@ pub fn run(ctx: &mut Ctx) {
         }
         ctx.outcome(si as u64);
         ctx.sample(|| json!({"genes": variants[0].genes, "omim": variants[0].omim, "orpha": variants[0].orpha, "second ontology genes": variants[1].genes, "queries": queries.len()}));
+    }
+    // ---- large record sets with systematically generated names (a name index that only exists above some size)
+    {
+        let sizes: Vec<usize> = if thorough { vec![31, 32, 33, 40, 64, 65, 100, 128, 129, 255, 256, 257, 300, 1000, 1024, 1025, 3000] } else { vec![31, 32, 33, 40, 64, 65, 100, 128, 129, 255, 256, 257, 300] };
+        ctx.space("records/large-sets", &format!("record sets of {sizes:?} genes, OMIM and ORPHA diseases each, with generated symbols (stems GEN/Gen/ABC/AB/A/ZNF/orf/C1orf + number; every 7th a duplicate of its neighbour, every 5th a lower-case twin, some with é or a hyphen; many prefixes of each other) and disease names (hyphenated eponyms, commas, digits, upper/lower-case nouns, duplicates); two Builder-built ontologies with the same ids and the next names, looked up first, second, first, then the first decoded from binary v3; keys: every id +-1, every symbol and 8 variants of it (case, prefix, extended, blank), every disease name, every substring of four names, 10 rewritings of 24 names (case, punctuation dropped, hyphen as blank, blanks doubled, padded, words reversed), hand-written queries"));
+        let stem = |j: usize| -> String { format!("{}{}", ["GEN", "Gen", "ABC", "AB", "A", "ZNF", "orf", "C1orf"][j % 8], j) };
+        let symbol = |j: usize| -> String {
+            if j % 7 == 6 {
+                stem(j - 1)
+            } else if j % 5 == 4 {
+                stem(j - 1).to_lowercase()
+            } else if j % 11 == 10 {
+                format!("{}\u{e9}", stem(j))
+            } else if j % 13 == 12 {
+                format!("{}-{}", stem(j), j % 3)
+            } else {
+                stem(j)
+            }
+        };
+        let dname = |j: usize| -> String {
+            let j = if j % 9 == 8 { j - 1 } else { j };
+            format!("{} {} type {}{}", ["Ehlers-Danlos", "Charcot-Marie-Tooth", "Bardet-Biedl", "Beh\u{e7}et", "Marfan", "Long QT", "3-M", "Ehlers Danlos"][j % 8], ["syndrome", "disease", "dysplasia", "syndrome,", "SYNDROME"][j % 5], j / 3, ["", "A", "b", ", autosomal recessive"][j % 4])
+        };
+        for &n in &sizes {
+            if !ctx.take() {
+                continue;
+            }
+            ctx.state();
+            struct Variant {
+                f: Facts,
+                genes: BTreeMap<u32, String>,
+                omim: BTreeMap<u32, String>,
+                orpha: BTreeMap<u32, String>,
+            }
+            let mut variants: Vec<Variant> = vec![];
+            for shift in 0..2usize {
+                let mut f = Facts::default();
+                f.terms = vec![Facts::term(1, "All"), Facts::term(118, "Phenotypic abnormality")];
+                f.edges = vec![(118, 1)];
+                let (mut genes, mut omim, mut orpha) = (BTreeMap::new(), BTreeMap::new(), BTreeMap::new());
+                for i in 0..n {
+                    let gid = if i + 1 == n { u32::MAX } else { 1 + 7 * i as u32 };
+                    let sym = symbol(i + shift);
+                    f.anns.push(Facts::ann(Kind::Gene, gid, &sym, if i % 2 == 0 { Some(118) } else { None }));
+                    genes.insert(gid, sym);
+                    let oid = 100_000 + 13 * i as u32;
+                    let name = dname(i + shift);
+                    f.anns.push(Facts::ann(Kind::Omim, oid, &name, if i % 3 == 0 { Some(1) } else { None }));
+                    omim.insert(oid, name);
+                    let rid = 5 + 13 * i as u32;
+                    let name = dname(i + 1 + shift);
+                    f.anns.push(Facts::ann(Kind::Orpha, rid, &name, None));
+                    orpha.insert(rid, name);
+                }
+                variants.push(Variant { f, genes, omim, orpha });
+            }
+            // keys
+            let mut key_ids: Vec<u32> = vec![0, u32::MAX - 1, u32::MAX];
+            for i in 0..n as u32 {
+                for base in [1 + 7 * i, 100_000 + 13 * i, 5 + 13 * i] {
+                    key_ids.extend([base - 1, base, base + 1]);
+                }
+            }
+            key_ids.sort_unstable();
+            key_ids.dedup();
+            let dedup = |v: Vec<String>| -> Vec<String> {
+                let mut seen = BTreeSet::new();
+                v.into_iter().filter(|x| seen.insert(x.clone())).collect()
+            };
+            let mut symbol_keys: Vec<String> = vec![String::new()];
+            for v in &variants {
+                for sname in v.genes.values() {
+                    let mut cut = sname.clone();
+                    cut.pop();
+                    let mut tail = sname.clone();
+                    if !tail.is_empty() {
+                        tail.remove(0);
+                    }
+                    symbol_keys.extend([sname.clone(), sname.to_lowercase(), sname.to_uppercase(), cut, tail, format!("{sname}A"), format!("{sname}0"), format!("{sname} "), format!(" {sname}")]);
+                }
+            }
+            let symbol_keys = dedup(symbol_keys);
+            let mut queries: Vec<String> = ["", " ", "-", ",", "Danlos syndrome type", "Ehlers Danlos", "type 4,", "type 1", "type 10", "e 1", "\u{e7}", "Behcet", "beh\u{e7}et", "QT", "3-M", "3 M", "M s", "syndrome, type", "SYNDROME type 1", "Syndrome", "recessive", ", autosomal recessive ", "EhlersDanlos", "Ehlers-Danlos  syndrome"].iter().map(|x| x.to_string()).collect();
+            let all_names: Vec<String> = dedup(variants.iter().flat_map(|v| v.omim.values().cloned()).collect());
+            queries.extend(all_names.iter().cloned());
+            for k in [0, all_names.len() / 3, 2 * all_names.len() / 3, all_names.len() - 1] {
+                let name = &all_names[k];
+                let cuts: Vec<usize> = name.char_indices().map(|c| c.0).chain([name.len()]).collect();
+                for (x, a) in cuts.iter().enumerate() {
+                    for b in &cuts[x + 1..] {
+                        queries.push(name[*a..*b].to_string());
+                    }
+                }
+            }
+            for name in all_names.iter().take(24) {
+                let words: Vec<&str> = name.split(' ').collect();
+                queries.extend([
+                    name.to_lowercase(),
+                    name.to_uppercase(),
+                    name.replace([',', '-'], ""),
+                    name.replace('-', " "),
+                    name.replace(' ', "  "),
+                    format!(" {name}"),
+                    format!("{name} "),
+                    words.iter().rev().copied().collect::<Vec<_>>().join(" "),
+                    words[..2.min(words.len())].join(" "),
+                    words[words.len().saturating_sub(2)..].join(" "),
+                ]);
+            }
+            let queries = dedup(queries);
+            let per = (queries.len() * 2 + 3 * key_ids.len() + symbol_keys.len()) as u64;
+            ctx.transitions(2 * variants[0].f.n_steps() + variants[1].f.n_steps() + 4 * per);
+            ctx.execs(4 * per);
+            ctx.validateds(4 * per);
+            let mut onts = vec![];
+            for v in &variants {
+                match drive::build(&v.f, Mode::Minimal) {
+                    Ok(o) => onts.push(o),
+                    Err(e) => ctx.violation("Builder", "construction fails on valid facts", json!({"records_per_kind": n, "observed": e})),
+                }
+            }
+            if onts.len() != 2 {
+                continue;
+            }
+            match drive::from_bytes(&crate::encode::encode(&variants[0].f, &crate::encode::EncOpts::v(3))) {
+                Ok(Ok(o)) => onts.push(o),
+                other => {
+                    ctx.violation("Ontology::from_bytes", "cannot decode a file laid out as documented", json!({"records_per_kind": n, "observed": format!("{:?}", other.map(|r| r.map(|_| ())))}));
+                    continue;
+                }
+            }
+            let mut strict_subset = false;
+            for (step, which) in [0usize, 1, 0, 2].into_iter().enumerate() {
+                let vi = if which == 2 { 0 } else { which };
+                let (ont, v) = (&onts[which], &variants[vi]);
+                let res = guard(|| check_records(ont, &v.genes, &v.omim, &v.orpha, &key_ids, &symbol_keys, &queries, &mut strict_subset));
+                let order = ["first ontology", "second ontology (same record ids, next symbols / names) after the first", "first ontology again after the second", "first ontology decoded from binary v3"][step];
+                let show = |m: &BTreeMap<u32, String>| -> Vec<(u32, String)> { m.iter().take(40).map(|(k, v)| (*k, v.clone())).collect() };
+                match res {
+                    Ok(None) => {}
+                    Ok(Some((site, sig, det))) => {
+                        ctx.violation(&site, &sig, json!({"records_per_kind": n, "difference": det, "looked_up_as": order, "first 40 genes": show(&v.genes), "first 40 omim": show(&v.omim)}));
+                        break;
+                    }
+                    Err(p) => {
+                        ctx.violation("Ontology lookups", "panics", json!({"records_per_kind": n, "observed": p, "looked_up_as": order}));
+                        break;
+                    }
+                }
+            }
+            if strict_subset {
+                ctx.nontrivial();
+            }
+            ctx.sample(|| json!({"records_per_kind": n, "id_keys": key_ids.len(), "symbol_keys": symbol_keys.len(), "queries": queries.len(), "some symbols": variants[0].genes.values().take(16).collect::<Vec<_>>(), "some names": variants[0].omim.values().take(8).collect::<Vec<_>>()}));
+        }
     }
     // ---- dense and sparse id sets, full sweep
     ctx.space("terms/dense-and-sparse", "dense block 1..=2000; sparse sets id_k = (k*7919+1) mod 10^7 (5000 ids) and every 37th id up to 10^7 (270271 ids); full sweep of 0..10^7+10^4 plus borders, iteration and len");
